@@ -131,4 +131,48 @@ RECURSIVE RedoAcc(_, _, _)
 \* RebuildAll: the published logs of the account re-applied in order to its committed record
 RedoAcc(r, logs, z) == IF logs = <<>> THEN r ELSE RedoAcc(Effect(r, Head(logs).k, Head(logs).new, z), Tail(logs), z)
 Redone(b, j, z, Dv) == [a \in DOMAIN b |-> RedoAcc(b[a], Published(j, a, z, Dv), z)]
+
+\* ---------------------------------------------------------------- finishing the block: roots, published root logs
+\* (Manager.Finalise / Account.updateTrie / StorageCache.Update, Manager.Save)
+\* The four roots commit to the contents of the four per-account tries; Finalise recomputes them for every account
+\* that keeps at least one published log and publishes a root log for every root that changed.
+\*   Dev_RevertedCreationLeavesEmptyRoot   undoStorage / undoAssetId / undoEquity write the EMPTY value back for an entry
+\*                            that did not exist at the snapshot; the entry stays in the trie cache's dirty set, so
+\*                            Finalise of an account whose trie had the zero root opens an empty trie, deletes the key and
+\*                            stores the hash of the empty trie ("E") instead of keeping the zero root - and publishes a
+\*                            root log for it.  A run that never executed the reverted write keeps the zero root.
+Roots == {"rs", "rac", "rai", "req"}
+\* the trie a setter kind writes to ("" none) ...
+TrieOf(k) == CASE k \in {"s1", "s2"} -> "rs" [] k \in {"ax", "asup", "afr"} -> "rac" [] k = "aid" -> "rai" [] k = "eq" -> "req" [] OTHER -> ""
+\* ... and whether a journalled old value says "there was no such entry" for the kinds whose undo writes the empty value
+\* back (asset codes are removed from the cache by undoAssetCode, so "ax" is not among them)
+AbsentOld(k, old) == CASE k \in {"s1", "s2", "eq"} -> old = 0 [] k = "aid" -> old = "" [] OTHER -> FALSE
+\* the (account, root) pairs for which undoing the journal j down to idx leaves such an empty dirty entry behind
+GhostsOf(j, idx) == {<<j[p].a, TrieOf(j[p].k)>> : p \in {q \in (idx + 1)..Len(j) : AbsentOld(j[q].k, j[q].old)}}
+\* SetSuicide(true) resets the storage, asset-code and asset-id caches of the account
+GhostsAfterSet(g, a, k) == IF k = "sui" THEN g \ {<<a, "rs">>, <<a, "rac">>, <<a, "rai">>} ELSE g
+Content(r, f) == CASE f = "rs"  -> <<Get(r, "s1", 0), Get(r, "s2", 0)>>
+                   [] f = "rac" -> <<Get(r, "ax", FALSE), Get(r, "asup", 0), Get(r, "afr", "")>>
+                   [] f = "rai" -> <<Get(r, "aid", "")>>
+                   [] f = "req" -> <<Get(r, "eq", 0)>>
+NoContent(f) == CASE f = "rs" -> <<0, 0>> [] f = "rac" -> <<FALSE, 0, "">> [] f = "rai" -> <<"">> [] f = "req" -> <<0>>
+\* the design's root: an injective function of the content, the zero root for no content
+RootOf(r, f, z) == IF Content(r, f) = NoContent(f) THEN z ELSE ToString(Content(r, f))
+WithRoots(r, z) == [f \in DOMAIN r |-> IF f \in Roots THEN RootOf(r, f, z) ELSE r[f]]
+\* Finalise of one account; g = the ghost pairs of the manager that executed the block
+FinAcc(r, a, z, g, Dv) ==
+  [f \in DOMAIN r |-> IF f \notin Roots THEN r[f]
+                      ELSE IF /\ "Dev_RevertedCreationLeavesEmptyRoot" \in Dv /\ <<a, f>> \in g
+                              /\ r[f] = z /\ Content(r, f) = NoContent(f) THEN "E"
+                      ELSE RootOf(r, f, z)]
+Finalised(s, j, z, g, Dv) == [a \in DOMAIN s |-> IF Published(j, a, z, Dv) # <<>> THEN FinAcc(s[a], a, z, g, Dv) ELSE s[a]]
+\* what the block publishes for account a: the kinds of its merged, valuable logs in order and the roots that changed
+PubOf(fin, b, j, a, z, Dv) == [kinds |-> [i \in 1..Len(Published(j, a, z, Dv)) |-> Published(j, a, z, Dv)[i].k],
+                               roots |-> {f \in Roots \cap DOMAIN b[a] : fin[a][f] # b[a][f]}]
+\* the state obtained by executing ONLY the surviving journal entries on the parent state (no snapshot, no revert)
+Executed(b, j, z) == LET mine(a) == LET m(e) == e.a = a IN SelectSeq(j, m)
+                     IN [a \in DOMAIN b |-> RedoAcc(b[a], mine(a), z)]
+\* what a node that loads the saved block sees: events and the self-destruct flag are not persisted
+Volatile == {"ev", "sui"}
+Persisted(s) == [a \in DOMAIN s |-> [f \in DOMAIN s[a] |-> IF f = "ev" THEN 0 ELSE IF f = "sui" THEN FALSE ELSE s[a][f]]]
 ====
